@@ -33,7 +33,7 @@ tier="$1"; vcheck="$HERE/harness/$2"
 seed="${VERIF_SEED:-0}"
 t0=$(date +%s)
 build
-if [ "$tier" = thorough ]; then runs_dr=200000; runs_vs=8000; else runs_dr=12000; runs_vs=400; fi
+if [ "$tier" = thorough ]; then runs_dr=120000; runs_vs=6000; else runs_dr=12000; runs_vs=400; fi
 procs=16
 work=$(mktemp -d /tmp/c02.XXXXXX)
 trap 'rm -rf "$work"' EXIT
